@@ -279,6 +279,9 @@ def run(ctx):
     T = tables.Tables(ctx)
     tables.rule_T_JUXTAPOSE(ctx, T, models=("enum", "lex"),
                             only_written={"copula_instance", "copula_property", "copula_instance_property", "copula_equivalence_retrospective"})
+    # component order is preserved end to end (formatter, templates, parsers, fold, accessors)
+    import maps as _maps
+    _maps.rule_O_ORDER(ctx)
     ctx.undecided = ["nothing value-dependent: the desugaring and index rules are shape facts; std's usize::from_str is trusted for the decimal syntax"]
     ctx.assumptions = ["Iterator::position returns the first index satisfying the predicate (std)", "usize::from_str parses decimal"]
     ctx.trusted = ["rustc nightly front end / MIR", "mirfacts driver", "python rule layer"]
